@@ -6,6 +6,7 @@ import (
 	"crypto/sha3"
 	"encoding/binary"
 	"fmt"
+	"sync"
 
 	"github.com/cometbft/cometbft/abci/types"
 
@@ -20,7 +21,17 @@ var prodEntropyCtx = []byte("EkB-tmnt")
 
 // Application is a beacon application.
 type Application struct {
-	backend internalBackend
+	// backendLock guards backend, which is set lazily by the first InitChain/BeginBlock and read by
+	// transaction simulation and mempool checks running concurrently with block execution.
+	backendLock sync.RWMutex
+	backend     internalBackend
+}
+
+// getBackend returns the initialized backend or nil.
+func (app *Application) getBackend() internalBackend {
+	app.backendLock.RLock()
+	defer app.backendLock.RUnlock()
+	return app.backend
 }
 
 // New constructs a new beacon application.
@@ -74,12 +85,13 @@ func (app *Application) BeginBlock(ctx *api.Context) error {
 		return fmt.Errorf("beacon: failed to (re-)initialize backend: %w", err)
 	}
 
-	return app.backend.OnBeginBlock(ctx, state, params)
+	return app.getBackend().OnBeginBlock(ctx, state, params)
 }
 
 // ExecuteTx implements api.Application.
 func (app *Application) ExecuteTx(ctx *api.Context, tx *transaction.Transaction) error {
-	if app.backend == nil {
+	backend := app.getBackend()
+	if backend == nil {
 		// Executing a transaction before BeginBlock -- likely during transaction simulation or
 		// checks. Fail the transaction, it may be retried.
 		return consensus.ErrNoCommittedBlocks
@@ -94,7 +106,7 @@ func (app *Application) ExecuteTx(ctx *api.Context, tx *transaction.Transaction)
 
 	ctx.SetPriority(AppPriority)
 
-	return app.backend.ExecuteTx(ctx, state, params, tx)
+	return backend.ExecuteTx(ctx, state, params, tx)
 }
 
 // EndBlock implements api.Application.
